@@ -11,7 +11,8 @@
 From Coq Require Import List ZArith NArith Bool.
 From BBS Require Import Common.Sx Buffer.Source Buffer.Validate Buffer.Convert Buffer.ErrHandler
   Buffer.StreamProofs Buffer.ValidateProofs Buffer.ErrHandlerProofs Buffer.ClosedOnceProofs
-  Buffer.ErrHandlerStackProofs Buffer.StackRuleProofs Run.R09 Run.R16 Run.R16Proofs.
+  Buffer.ErrHandlerStackProofs Buffer.StackRuleProofs Buffer.ValidateReaderProofs Buffer.ConvertProofs
+  Buffer.EHFullCarry Buffer.EHFullReader Buffer.EHFullMethods Run.R09 Run.R16 Run.R16Proofs.
 Import ListNotations.
 Open Scope N_scope.
 
@@ -28,20 +29,115 @@ Theorem stitched_output_and_each_io_error_offered_once : forall ifuel max fuel r
 Proof. exact ehc_stitched. Qed.
 Print Assumptions stitched_output_and_each_io_error_offered_once.
 
-(** No duplicated and no skipped range: if the original and all replacement
-    buffers carry the same object [C] (sources may fail or end anywhere), a
-    stitched stream started at offset [k] that reaches io.EOF is exactly C[k..].
-    Full statement: for every buffer kind.  Proved for chunk-reader backed CAS
-    buffers, validated byte slices and error buffers ([carries]); reader-backed
-    CAS buffers (io.CopyN/io.ReadFull underneath) are covered by the
-    correspondence check only. *)
-Theorem no_dup_no_skip_partial : forall ifuel max C cur k ans out e offered,
+(** No duplicated and no skipped range, at full strength.
+
+    [carries_full C b] (Buffer/EHFullCarry.v): the buffer [b] carries the object
+    [C] — for EVERY buffer kind of the model:
+    - chunk-reader backed CAS buffer, and reader backed CAS buffer whose reader
+      reports EOF / errors on a call of their own: the chunks before the first
+      event that is not a chunk are a prefix of [C], all of [C] if that event is
+      io.EOF (the source may fail or end anywhere; what follows is never read);
+    - reader backed CAS buffer whose reader hands out EOF / an error TOGETHER
+      with data ([rcar]): every chunk of the script is the next piece of [C] and
+      io.EOF comes only when all of [C] has been handed out — io.ReadFull and
+      io.CopyN(io.Discard) drop an error that arrives with the last byte they
+      asked for, and the next read continues with what follows it in the script
+      (see [content_carrier_insufficient_for_attaching_readers] below);
+    - validated byte slice: it is [C]; error buffer: always.
+    If the original and all replacement buffers carry [C], a stitched stream
+    started at offset [k] that reaches io.EOF is exactly C[k..] — wherever the
+    failures occur, whatever the chunkings, for replacement buffers that fail
+    again, cannot be opened at the delivered offset or are in an error state,
+    for ANY fuel (running out of fuel is just another error). *)
+Theorem no_dup_no_skip : forall ifuel max C cur k ans out e offered,
   stitched ifuel max cur k ans out e offered -> e = EEof ->
-  forall b, cur = ucr_open ifuel b k -> carries C b ->
-  Forall (fun a => match a with Replace b' => carries C b' | Fail _ => True end) ans ->
-  ~ In EFuel offered -> k <= lenN C -> out = dropN k C.
-Proof. exact stitched_no_dup_no_skip. Qed.
-Print Assumptions no_dup_no_skip_partial.
+  forall b, cur = ucr_open ifuel b k -> carries_full C b ->
+  Forall (ans_carries C) ans -> k <= lenN C -> out = dropN k C.
+Proof. exact stitched_no_dup_no_skip_full. Qed.
+Print Assumptions no_dup_no_skip.
+
+(** ... and whatever the outcome (io.EOF or the handler's error), what has been
+    handed out is a prefix of C[k..]: nothing duplicated, skipped or foreign. *)
+Theorem delivered_is_prefix : forall ifuel max C cur k ans out e offered,
+  stitched ifuel max cur k ans out e offered ->
+  forall b, cur = ucr_open ifuel b k -> carries_full C b ->
+  Forall (ans_carries C) ans -> k <= lenN C -> exists rest, dropN k C = out ++ rest.
+Proof. exact stitched_prefix_full. Qed.
+Print Assumptions delivered_is_prefix.
+
+(** The earlier partial form ([carries]: no reader-backed buffers, no fuel
+    exhaustion) is an instance. *)
+Theorem carries_is_carries_full : forall C b, carries C b -> carries_full C b.
+Proof. exact carries_carries_full. Qed.
+Print Assumptions carries_is_carries_full.
+
+(** * The [ToReader] path: errorHandlingReader.
+    [rstitched fuel cur k answers out e offered] (Buffer/EHFullReader.v) is
+    [stitched] for io.Readers: the consumer reads with arbitrary buffer sizes
+    ([rdrains]), and the data that comes together with the error that ends a
+    piece belongs to the piece (it is handed to the consumer, the replacement is
+    opened after it).  The stream of the error-handling reader, read to its end
+    with any buffer sizes, is the stitched stream; the handler's log grows by
+    exactly the I/O errors that ended the pieces, once each and in order; the
+    delivered offset is the number of bytes handed out. *)
+Theorem reader_stitched_output_and_each_io_error_offered_once : forall fuel r out e r',
+  rdrains (ehr_read fuel) r out e r' ->
+  exists offered,
+    rstitched fuel (er_cur r) (er_off r) (h_answers (er_h r)) out e offered /\
+    h_log (er_h r') = h_log (er_h r) ++ map HOnError offered /\
+    er_off r' = er_off r + lenN out.
+Proof. exact ehr_stitched. Qed.
+Print Assumptions reader_stitched_output_and_each_io_error_offered_once.
+
+Theorem no_dup_no_skip_reader : forall fuel C cur k ans out e offered,
+  rstitched fuel cur k ans out e offered -> e = EEof ->
+  forall b, cur = urd_open fuel b k -> carries_full C b ->
+  Forall (ans_carries C) ans -> k <= lenN C -> out = dropN k C.
+Proof. exact rstitched_no_dup_no_skip. Qed.
+Print Assumptions no_dup_no_skip_reader.
+
+Theorem delivered_is_prefix_reader : forall fuel C cur k ans out e offered,
+  rstitched fuel cur k ans out e offered ->
+  forall b, cur = urd_open fuel b k -> carries_full C b ->
+  Forall (ans_carries C) ans -> k <= lenN C -> exists rest, dropN k C = out ++ rest.
+Proof. exact rstitched_prefix. Qed.
+Print Assumptions delivered_is_prefix_reader.
+
+Theorem handler_error_is_result_reader : forall fuel cur k ans out e offered,
+  rstitched fuel cur k ans out e offered ->
+  e = EEof \/
+  exists c pre t, e = ECode c /\ offered = pre ++ [t] /\
+                  fst (on_error (mkHst (skipn (length pre) ans) []) t) = Fail c.
+Proof. exact rstitched_result. Qed.
+Print Assumptions handler_error_is_result_reader.
+
+(** The validating reader above the error-handling reader completes only if
+    the stitched stream has the digest's size and hash.  (Proved for the
+    validating reader over ANY io.Reader that never returns
+    io.ErrUnexpectedEOF itself: the validated stream that reaches io.EOF is what
+    the reader underneath delivered up to its own io.EOF.) *)
+Theorem still_validated_reader : forall H cfg fuel b h out st',
+  rdrains (ehrv_read H cfg fuel) (vinit cfg (ehr_init fuel b h)) out EEof st' ->
+  lenN out = g_size cfg /\ g_hash cfg = H out /\
+  exists offered, rstitched fuel (urd_open fuel b 0) 0 (h_answers h) out EEof offered.
+Proof. exact ehr_validated_stitched. Qed.
+Print Assumptions still_validated_reader.
+
+(** * Every consumption method.  If the buffer handed to WithErrorHandler and
+    every replacement buffer the handler supplies carry the object [C], then a
+    call / stream that completes ([completed]: nil for ToByteSlice, IntoWriter,
+    CloneCopy; nil or io.EOF for ReadAt; io.EOF for ToChunkReader and ToReader)
+    has handed the consumer exactly the expected slice of [C]
+    ([expected_slice]: C, C[off..] for ToChunkReader, C[off..off+len) for
+    ReadAt): each byte once and in order, or an error — for every buffer kind,
+    handler script, failure position, chunking, start offset, chunk size, read
+    sizes, digest, hash function and fuel. *)
+Theorem no_dup_no_skip_every_method : forall H cfg fuel C b0 answers m,
+  carries_full C b0 -> Forall (ans_carries C) answers -> m <> MDiscard ->
+  completed m (x_err (run_case H cfg fuel b0 answers m)) = true ->
+  x_data (run_case H cfg fuel b0 answers m) = expected_slice m C.
+Proof. exact run_case_no_dup_no_skip. Qed.
+Print Assumptions no_dup_no_skip_every_method.
 
 (** The content is still validated across the stitched parts: the validated
     stream above the error-handling reader completes only if the stitched
@@ -222,3 +318,48 @@ Example c16_stack_outer_repairs :
   = mkOut16s [1; 2; 3] ENone [] [true]
              [[HOnError (ECode 14); HDone]; [HOnError (ECode 7); HDone]] [1%nat; 1%nat] [].
 Proof. vm_compute. reflexivity. Qed.
+
+(** Non-vacuity of [no_dup_no_skip_every_method]: the object 1,2,3; the
+    original chunk-reader buffer fails after one byte; the first replacement is
+    a reader-backed buffer (EOF/errors attached to data) that is opened at offset
+    1 and fails again after one more byte (its first error 5 arrives together
+    with the byte 2 that completes an io.ReadFull and is dropped, the repeated
+    error is offered); the second replacement, a reader-backed
+    buffer with errors on their own calls, is opened at offset 2.  All carry the
+    object; the consumer reads with chunk size 1 from offset 1 and gets 2,3. *)
+Example c16_every_kind_carries :
+  let H := lookup [([1; 2; 3], [9; 9])] in
+  let cfg := mkVcfg [9; 9] 3 13 in
+  let C := [1; 2; 3] in
+  let b0 := BChunk [Chunk [1]; Err 14; Chunk [7]] in
+  let b1 := BReader [Chunk [1; 2]; Err 5; Err 5; Chunk [3]] true in
+  let b2 := BReader [Chunk [1]; Chunk [2; 3]; Eof; Chunk [9]] false in
+  carries_full C b0 /\ carries_full C b1 /\ carries_full C b2 /\
+  run_case H cfg 80 b0 [Replace b1; Replace b2] (MToChunkReader 1 1 0)
+  = mkOut16 [2; 3] EEof [] [true] [HOnError (ECode 14); HOnError (ECode 5); HDone] [].
+Proof.
+  vm_compute. split; [exists [2; 3]; split; [reflexivity|discriminate]|].
+  split; [exists [3]; split; [reflexivity|]; exists []; auto|].
+  split; [exists []; auto|reflexivity].
+Qed.
+
+(** Why readers that attach errors to data need the stronger notion [rcar]:
+    with "the chunks before the first non-chunk event are a prefix of C" alone
+    the statement is FALSE on the model.  The reader hands out 1,2 together with
+    error 14; io.ReadFull(2 bytes) inside the reader-backed chunk reader drops
+    that error, the handler is never asked, and the next read continues with the
+    7 that follows in the script: the stream completes with 1,2,7 (valid for a
+    digest of 1,2,7) although the buffer's [content] is the prefix 1,2 of 1,2,3.
+    (The harness excludes such scripts: a real reader repeats its error.) *)
+Example content_carrier_insufficient_for_attaching_readers :
+  let H := lookup [([1; 2; 7], [9; 9])] in
+  let cfg := mkVcfg [9; 9] 3 13 in
+  let evs := [Chunk [1; 2]; Err 14; Chunk [7]; Eof] in
+  ccar [1; 2; 3] evs /\ ~ rcar [1; 2; 3] evs /\
+  run_case H cfg 60 (BReader evs true) [] (MToChunkReader 0 2 0)
+  = mkOut16 [1; 2; 7] EEof [] [true] [HDone] [].
+Proof.
+  split; [exists [3]; split; [reflexivity|discriminate]|].
+  split; [|vm_compute; reflexivity].
+  cbn. intros (C' & E & C'' & E2 & _). injection E as <-. cbn in E2. discriminate E2.
+Qed.
